@@ -16,7 +16,7 @@ RECURSIVE SumSeq(_)
 SumSeq(s) == IF s = <<>> THEN 0 ELSE Head(s) + SumSeq(Tail(s))
 SetOf(s) == {s[i] : i \in DOMAIN s}
 
-C01Clauses == {"raised", "count", "slots", "range", "callshape", "jds_carried", "input_mutated",
+C01Clauses == {"earlier_result_changed_by_a_later_call", "raised", "count", "slots", "range", "callshape", "jds_carried", "input_mutated",
                "net_nodes", "net_jd", "net_edges", "motif_shape"}
 C02Clauses == {"raised", "parallel", "pairs", "ids_blocks", "ids_distinct", "names", "edges_are_returned",
                "network_edge_names", "network_edge_ids"}
@@ -48,6 +48,7 @@ Failed(t) ==
     IF t.raised # "" THEN {"raised"} ELSE
     {c \in clauses :
        CASE c = "raised" -> FALSE
+         [] c = "earlier_result_changed_by_a_later_call" -> t.held_before # t.held_after
          [] c = "callshape" -> ~shapeOK
          [] c = "count" -> shapeOK /\ \E m \in DOMAIN t.motifs : \E o \in DOMAIN Orb(m) :
                               Cardinality(CallsOf(m)) * t.sizes[Orb(m)[o]] # ColSum(Orb(m)[o])
